@@ -246,7 +246,14 @@ def rand_call(rng, doc, depth, fn=None):
     elif fn == "Base64Decode":
         r = rng.random()
         enc = base64.b64encode(rand_str(rng, 7, HOSTILE + "\u20ac\U0001f600").encode()).decode()
-        if r < 0.6:
+        if r < 0.5:
+            args = [S(enc)]
+        elif r < 0.6:
+            # a text that *becomes* valid base64 when the characters outside the alphabet are dropped (four of them, so that
+            # the length stays a multiple of four): must fail, not decode what is left
+            for _ in range(4):
+                i = rng.randint(0, len(enc))
+                enc = enc[:i] + rng.choice("{}*!~ .:") + enc[i:]
             args = [S(enc)]
         elif r < 0.75:
             args = [F("Base64Encode", S(rand_str(rng, 5)))]
